@@ -259,6 +259,8 @@ def main():
             a, b = args[i + 1].split("/"); shard = (int(a), int(b)); i += 2
         elif args[i] == "--resume":
             resume = True; i += 1
+        elif args[i] == "--ids":
+            only = set(args[i + 1].split(",")); i += 2
         elif args[i] == "--rerun-no-input":
             only = {r["id"] for r in latest_results() if r.get("no_input")}; i += 1
         elif args[i] == "--rerun-survivors":
